@@ -150,6 +150,23 @@ pub fn campaigns(ctx: &Ctx) -> Stats {
             Some(Case6::S(SeqCase { calls }))
         }));
     }
+    // the filters are a reshaped VIEW of the image (shared storage), spanning the whole image or not
+    {
+        let pairs: Vec<(Vec<usize>, Vec<usize>)> = vec![
+            (vec![1, 3, 3], vec![1, 1, 3, 3]),
+            (vec![2, 2, 2], vec![1, 2, 2, 2]),
+            (vec![2, 2, 2, 2], vec![2, 2, 2, 2]),
+            (vec![3, 1, 2, 2], vec![3, 1, 2, 2]),
+            (vec![2, 1, 4, 2], vec![4, 1, 2, 2]),
+            (vec![1, 4, 4], vec![4, 1, 2, 2]),
+            (vec![2, 3, 2], vec![3, 2, 1, 2]),
+        ];
+        st.merge(ctx.run_indexed("filters-are-a-view-of-the-image", pairs.len() as u64 * 2, None, |i| {
+            let (image, filters) = pairs[(i / 2) as usize].clone();
+            let vals: Vec<f64> = (0..numel(&image)).map(|k| ((k * 3 + 1) % 11) as f64 - 4.0).collect();
+            Some(Case6::F(FwdCase { op: refmodel::ir::OpKind::Conv { sr: 1, sc: 1 }, leaves: vec![LeafSpec { dims: image.clone(), vals: vals.clone(), tracked: i % 2 == 1 }, LeafSpec { dims: filters.clone(), vals, tracked: false }], force_exact: None, second_is_view_of_first: Some(filters) }))
+        }));
+    }
     // image and filter values of very different magnitudes (against each other, and element by element)
     {
         let shapes: Vec<(Vec<usize>, Vec<usize>, usize, usize)> = vec![
